@@ -36,6 +36,11 @@ const (
 	kFList   = "flist"   // hfl + [1]
 	kFDict   = "fdict"   // hfd | {"a": 1}
 	kBigDict = "bigdict" // {64*i: [i] for i in range(12)}: 12 entries in one chain of the table
+	// functions created, while THIS module runs, by factories that belong to another,
+	// already finished module (supplied by the host): libclo(a, b) returns a closure over
+	// its arguments, libdef(a, b) a function whose parameter defaults they are
+	kLibClo = "libclo"
+	kLibDef = "libdef"
 )
 
 func leafKind(k string) bool {
@@ -48,7 +53,7 @@ func leafKind(k string) bool {
 var coreKinds = []string{kList, kDict, kDictK, kSet, kTuple, kStruct, kFnDef, kClosure, kMethod, kHostList}
 var coreAndEmptyKinds = append(append([]string{}, coreKinds...), kEList, kEDict, kESet)
 
-var allKinds = []string{kList, kDict, kDictK, kSet, kTuple, kStruct, kFnDef, kClosure, kMethod, kHostList, kEList, kEDict, kESet, kCList, kCDict, kCSet, kFStruct, kFTuple, kFList, kFDict, kBigDict}
+var allKinds = []string{kList, kDict, kDictK, kSet, kTuple, kStruct, kFnDef, kClosure, kMethod, kHostList, kEList, kEDict, kESet, kCList, kCDict, kCSet, kFStruct, kFTuple, kFList, kFDict, kBigDict, kLibClo, kLibDef}
 
 type Node struct {
 	Kind string `json:"kind"`
@@ -67,11 +72,13 @@ func mutableKind(k string) bool {
 
 // hard: children are fixed when the node is created.
 func hardKind(k string) bool {
-	return k == kTuple || k == kStruct || k == kFnDef || k == kMethod || k == kFStruct || k == kFTuple
+	return k == kTuple || k == kStruct || k == kFnDef || k == kMethod || k == kFStruct || k == kFTuple || k == kLibClo || k == kLibDef
 }
 
 // flagless: Freeze has no visited flag on this kind.
-func flaglessKind(k string) bool { return k == kTuple || k == kFnDef || k == kClosure || k == kFTuple }
+func flaglessKind(k string) bool {
+	return k == kTuple || k == kFnDef || k == kClosure || k == kFTuple || k == kLibClo || k == kLibDef
+}
 
 func (g *Graph) String() string {
 	var sb strings.Builder
@@ -127,7 +134,7 @@ func (g *Graph) hashable(i int, seen map[int]bool) bool {
 	seen[i] = true
 	n := g.Nodes[i]
 	switch n.Kind {
-	case kFnDef, kClosure, kMethod:
+	case kFnDef, kClosure, kMethod, kLibClo, kLibDef:
 		return true
 	case kTuple, kStruct, kFTuple, kFStruct:
 		for _, k := range n.Kids {
@@ -176,7 +183,7 @@ func (g *Graph) topo() (order []int, ok bool) {
 func (g *Graph) valid() bool {
 	for i, n := range g.Nodes {
 		switch n.Kind {
-		case kTuple, kStruct, kFnDef, kClosure, kFTuple, kFStruct:
+		case kTuple, kStruct, kFnDef, kClosure, kFTuple, kFStruct, kLibClo, kLibDef:
 			if len(n.Kids) == 0 {
 				return false
 			}
@@ -378,7 +385,7 @@ func enumGraphs(n, maxKids, maxEdges int, kinds []string, f func(g *Graph)) {
 			if leafKind(k) && len(ch) != 0 {
 				continue
 			}
-			if (k == kTuple || k == kStruct || k == kFnDef || k == kClosure || k == kFTuple || k == kFStruct) && len(ch) == 0 {
+			if (k == kTuple || k == kStruct || k == kFnDef || k == kClosure || k == kFTuple || k == kFStruct || k == kLibClo || k == kLibDef) && len(ch) == 0 {
 				continue
 			}
 			g.Nodes[i].Kids = ch
@@ -455,6 +462,12 @@ func (g *Graph) Program(outcome string, helperSrc string) string {
 			b = append(b, name(i)+` = {"a": 1}`, name(i)+".clear()")
 		case kCSet:
 			b = append(b, name(i)+" = set([1])", name(i)+".clear()")
+		case kLibClo, kLibDef:
+			var as []string
+			for _, k := range nd.Kids {
+				as = append(as, name(k))
+			}
+			b = append(b, name(i)+" = "+nd.Kind+"("+strings.Join(as, ", ")+")")
 		case kFList:
 			b = append(b, name(i)+" = hfl + [1]")
 		case kFDict:
